@@ -17,6 +17,8 @@ A_CACHE = A_ENV + [
 ]
 O_CACHE = ["bursts longer than the stated number of calls, more client goroutines than stated, more than 3 keys", "cost magnitudes >= 2^40", "shards other than 0 and 1"]
 
+QUICK_PAIRS = {(0,1,1),(0,3,1),(1,1,1),(1,3,1),(1,7,1),(0,5,1),(2,4,1),(1,6,1),(3,7,1),(1,8,1),(1,9,1),(1,10,1),(0,1,0),(1,1,0)}
+
 MENU = {"set0": 1, "set1": 2, "set2": 4, "del0": 8, "get0": 16, "wait": 32, "ttl0": 64, "get1": 128, "del1": 256, "heavy0": 512, "clear": 1024}
 def menu(*names): return sum(MENU[n] for n in names)
 
@@ -47,7 +49,7 @@ specs["C02"] = dict(prefixes=["C02.", "no-panic", "no-deadlock"], runs=[
   {"pkg": "root", "fn": "vfH_Store_Step", "params": {"entries": 2}, "tiers": QT},
   burst(Q, ops=3, menu=menu("set0", "set1", "get0", "del0"), maxcost=1, setbuf=2, sketch=1),
   burst(T, ops=4, menu=menu("set0", "set1", "get0", "del0"), maxcost=1, setbuf=2, sketch=1),
-  burst(QT, ops=2, menu=menu("set0", "get0", "del0", "clear"), maxcost=2, setbuf=2, pre=1),
+  burst(QT, ops=2, menu=menu("set0", "get0", "clear"), maxcost=2, setbuf=2, pre=1),
   burst(T, ops=3, menu=menu("set0", "set1", "get0", "del0", "clear"), maxcost=1, setbuf=1, pre=1, sketch=1),
   dict(burst(T, ops=2, menu=menu("set0", "get0", "del0"), maxcost=1, setbuf=2, sketch=1), twin=True),
  ], witnesses=["vfH_Store_Step:end", "vfH_Burst:end"],
@@ -76,7 +78,7 @@ specs["C04"] = dict(prefixes=["C04.", "no-panic", "no-deadlock"], runs=[
   burst(Q, ops=2, menu=menu("set0", "set1", "del0", "get0"), maxcost=1, setbuf=2, sketch=1, final=2, pre=1),
   burst(T, ops=4, menu=menu("set0", "set1", "del0"), maxcost=1, setbuf=1, sketch=1, final=1),
   burst(T, ops=3, menu=menu("set0", "set1", "set2", "del0", "get0", "wait"), maxcost=2, setbuf=2, sketch=1, final=2, pre=1),
-  burst(T, ops=3, menu=menu("set0", "set1", "del0", "clear"), maxcost=1, setbuf=2, sketch=1, final=1),
+  burst(T, ops=2, menu=menu("set0", "set1", "clear"), maxcost=1, setbuf=2, sketch=1, final=2),
   dict(burst(T, ops=2, menu=menu("set0", "set1"), maxcost=1, setbuf=1, final=1), twin=True),
   {"pkg": "root", "fn": "vfH_C04_ShouldUpdate", "tiers": QT},
  ], witnesses=["vfH_Burst:end", "vfH_C04_ShouldUpdate:end"],
@@ -121,16 +123,18 @@ specs["C13"] = dict(prefixes=["C13.", "no-panic", "no-deadlock"], runs=[
   burst(Q, ops=3, menu=menu("set0", "set1", "set2", "del0"), maxcost=2, setbuf=2, sketch=1, iter=1),
   burst(T, ops=4, menu=menu("set0", "set1", "set2", "del0", "del1"), maxcost=2, setbuf=1, sketch=1, iter=1),
   burst(QT, ops=2, menu=menu("set0", "set1", "del0", "clear"), maxcost=1, setbuf=2, sketch=1, pre=1, iter=1),
-  burst(QT, ops=2, menu=menu("set0", "set1", "del0"), maxcost=2, setbuf=2, pre=1, final=1),
+  burst(Q, ops=1, menu=menu("set0", "set1", "del0"), maxcost=2, setbuf=2, pre=1, final=1),
+  burst(T, ops=2, menu=menu("set0", "set1", "del0"), maxcost=2, setbuf=2, pre=1, final=1),
   {"pkg": "root", "fn": "vfH_C13_IterStops", "tiers": QT},
  ], witnesses=["vfH_Burst:end", "vfH_C13_IterStops:end"],
  bounds=["bursts of 2..3 (quick) / 4 (thorough) calls from Set(k0..k2), Del(k0), Del(k1), Clear with MaxCost 1..2, arbitrary sketch contents, write buffer 1..2 (evictions, rejections, drops), keys with pairwise different primary hashes; after Wait: every key is in the store iff the policy charges for it, IterValues visits each resident exactly once; after Clear nothing is enumerated and RemainingCost() = MaxCost"],
  outside=O_CACHE + ["expiry (see C14)"], assumptions=A_CACHE)
 
 specs["C15"] = dict(prefixes=["C15.", "C04.", "no-panic", "no-deadlock"], runs=[
-  burst(Q, ops=2, menu=menu("set0", "set1", "del0", "get0"), maxcost=2, setbuf=2, final=1, pre=1, metrics=1),
+  burst(Q, ops=1, menu=menu("set0", "set1", "del0", "get0"), maxcost=2, setbuf=2, final=1, pre=1, metrics=1),
+  burst(T, ops=2, menu=menu("set0", "set1", "del0", "get0"), maxcost=2, setbuf=2, final=1, pre=1, metrics=1),
   burst(Q, ops=2, menu=menu("set0", "set1", "del0", "get0"), maxcost=2, setbuf=2, final=2, pre=1),
-  burst(T, ops=3, menu=menu("set0", "set1", "del0", "get0", "wait"), maxcost=1, setbuf=1, final=1, pre=1, metrics=1, sketch=1),
+  burst(T, ops=2, menu=menu("set0", "set1", "del0", "wait"), maxcost=1, setbuf=1, final=1, pre=1, metrics=1, sketch=1),
   burst(T, ops=3, menu=menu("set0", "set1", "del0", "get0", "clear"), maxcost=1, setbuf=2, final=2, pre=1, sketch=1),
   {"pkg": "root", "fn": "vfH_C15_WaiterReleased", "tiers": QT},
  ], witnesses=["vfH_Burst:end", "vfH_C15_WaiterReleased:end"],
@@ -147,6 +151,115 @@ specs["C17"] = dict(prefixes=["C17.", "no-panic", "no-deadlock"], runs=[
  bounds=["Metrics.add/get/Clear on the real 256-cell layout for every metric type and an arbitrary hash (fork over the 25 cell indices)",
   "bursts of 2..3 (quick) / 3..4 (thorough) calls from Set (cost 1), heavier overwrite (cost 2), Get, Del with metrics on, MaxCost 2..3, write buffer 1..2, arbitrary sketch contents; after Wait: Hits+Misses = Gets, KeysAdded-KeysEvicted = residents, CostAdded-CostEvicted = MaxCost-RemainingCost, SetsDropped = refused new-key Sets, GetsKept+GetsDropped <= Gets"],
  outside=O_CACHE + ["TTL expiry"], assumptions=A_CACHE)
+
+A_Z = A_ENV[:2] + ["z.Calloc/Free are the Go-memory versions (no jemalloc build tag)"]
+
+specs["C07"] = dict(prefixes=["C07.", "no-panic", "no-deadlock"], runs=[
+  {"pkg": "root", "fn": "vfH_Store_TTLRead", "tiers": QT, "fallback": "cvc5-int,z3-new"},
+  {"pkg": "root", "fn": "vfH_C07_SetGetTTL", "params": {"grid": 0}, "tiers": QT, "fallback": "cvc5-int,z3-new", "short_ms": 1000},
+  {"pkg": "root", "fn": "vfH_C07_SetGetTTL", "params": {"grid": 1}, "tiers": QT, "fallback": "cvc5-int,z3-new", "short_ms": 1000},
+  {"pkg": "root", "fn": "vfH_C07_SetGetTTL", "params": {"grid": 4}, "tiers": QT, "fallback": "cvc5-int,z3-new", "short_ms": 1000},
+  {"pkg": "root", "fn": "vfH_C07_SetGetTTL", "params": {"grid": 2}, "tiers": T, "fallback": "cvc5-int,z3-new", "short_ms": 1000},
+  {"pkg": "root", "fn": "vfH_C07_SetGetTTL", "params": {"grid": 3}, "tiers": T, "fallback": "cvc5-int,z3-new", "short_ms": 1000},
+  {"pkg": "root", "fn": "vfH_C07_SetGetTTL", "params": {"grid": 5}, "tiers": T, "fallback": "cvc5-int,z3-new", "short_ms": 1000},
+  {"pkg": "root", "fn": "vfH_C07_SetGetTTL", "params": {"grid": 6}, "tiers": T, "fallback": "cvc5-int,z3-new", "short_ms": 1000},
+  {"pkg": "root", "fn": "vfH_C07_SetGetTTL", "params": {"grid": 4, "pre": 1, "prettl": 2}, "tiers": T, "fallback": "cvc5-int,z3-new", "short_ms": 1000},
+  {"pkg": "root", "fn": "vfH_C07_SetGetTTL", "params": {"grid": 1, "pre": 1, "prettl": 1}, "tiers": T, "fallback": "cvc5-int,z3-new", "short_ms": 1000},
+  {"pkg": "root", "fn": "vfH_C07_SetGetTTL", "params": {"grid": 4}, "tiers": T, "twin": True, "fallback": "cvc5-int,z3-new", "short_ms": 1000},
+ ], witnesses=["vfH_Store_TTLRead:end", "vfH_C07_SetGetTTL:end", "vfH_C07_SetGetTTL:neg"],
+ bounds=["get / IterValues on an entry with an arbitrary expiration (or none) against an arbitrary clock: served iff not expired, judged against clock readings taken just before and after the call",
+  "SetWithTTL with ttl in {every negative value, 0, 1ns, 999999999ns, 1s, 6s, 1h} (durations concrete because multiplication/division by 1e9 of symbolic values is not decided by the solvers; instants symbolic), optionally replacing an entry with a longer / shorter / no TTL; then Wait, GetTTL, Get: attached expiration = call time + ttl, GetTTL <= ttl, hit before / miss after the expiration instant; every interleaving with the applier"],
+ outside=O_CACHE + ["ttl values outside the grid", "wall-clock steps, monotonic-clock divergence", "clock readings more than a few minutes apart (small-clock encoding: instants = fixed base + 8-bit seconds + nanoseconds; shifting all instants is a symmetry of the code)"],
+ assumptions=A_CACHE + ["Time.Sub / time.Until are computed as (sec difference)*1e9 + nsec difference, exact for instants a few minutes apart (no saturation)"])
+
+specs["C08"] = dict(prefixes=["no-race", "no-panic", "no-deadlock", "terminates"], runs=[
+  {"pkg": "root", "fn": "vfH_C08_Pair", "params": {"a": a, "b": b, "samekey": sk, "preempt": 2}, "tiers": (QT if (a, b, sk) in QUICK_PAIRS else T)}
+  for a in range(11) for b in range(a, 11) for sk in (1, 0) if not (sk == 0 and (a >= 5 and b >= 5))
+ ] + [
+  {"pkg": "root", "fn": "vfH_C08_Pair", "params": {"a": 0, "b": 1, "samekey": 1, "preempt": 3, "bufitems": 1, "yieldatomics": 1}, "tiers": T},
+  {"pkg": "root", "fn": "vfH_C08_Pair", "params": {"a": 1, "b": 7, "samekey": 1, "preempt": 3, "setbuf": 1}, "tiers": T},
+  {"pkg": "root", "fn": "vfH_C08_Pair", "params": {"a": 3, "b": 6, "samekey": 1, "preempt": 3, "setbuf": 1}, "tiers": T},
+  {"pkg": "root", "fn": "vfH_C08_Pair", "params": {"a": 0, "b": 2, "samekey": 1, "preempt": 2, "ticks": 1}, "tiers": T},
+  {"pkg": "root", "fn": "vfH_C08_Pair", "params": {"a": 0, "b": 1, "samekey": 1, "preempt": 2, "metrics": 0, "callbacks": 0, "bufitems": 64}, "tiers": T},
+ ], witnesses=["vfH_C08_Pair:end"],
+ bounds=["two client goroutines with one call each, for every unordered pair of {Get, Set, SetWithTTL, Del, GetTTL, IterValues, Wait, Clear, UpdateMaxCost, MaxCost/RemainingCost, Metrics readers} on the same key and on different keys (quick: a representative subset of pairs), pre-state with one resident, BufferItems=1 (every Get hands a batch to the policy goroutine), metrics and callbacks on; with the applier and policy goroutines; pre-emption bound 2 (3 for selected pairs); happens-before race detection on every memory access of every explored interleaving"],
+ outside=["3..64 goroutines, more than one call per goroutine", "any notion of wall-clock progress: the claim is no deadlock / non-termination in any explored interleaving", "interleavings beyond the pre-emption bound"] + O_CACHE,
+ assumptions=A_CACHE + ["sync.Pool may hand the same stripe to the next caller (LIFO)"])
+
+specs["C10"] = dict(prefixes=["C10.", "no-panic"], runs=[
+  {"pkg": "z", "fn": "vfH_C10_Tree", "params": {"pagesize": 80, "prefix": 4, "ops": 1, "menu": 7, "recipe": 0}, "tiers": QT},
+  {"pkg": "z", "fn": "vfH_C10_Tree", "params": {"pagesize": 80, "prefix": 4, "ops": 1, "menu": 7, "recipe": 1}, "tiers": QT},
+  {"pkg": "z", "fn": "vfH_C10_Tree", "params": {"pagesize": 80, "prefix": 5, "ops": 2, "menu": 2, "recipe": 0}, "tiers": QT},
+  {"pkg": "z", "fn": "vfH_C10_Tree", "params": {"pagesize": 80, "prefix": 4, "ops": 2, "menu": 3, "recipe": 0}, "tiers": T},
+  {"pkg": "z", "fn": "vfH_C10_Tree", "params": {"pagesize": 80, "prefix": 4, "ops": 2, "menu": 15, "recipe": 1}, "tiers": T},
+  {"pkg": "z", "fn": "vfH_C10_Tree", "params": {"pagesize": 96, "prefix": 6, "ops": 2, "menu": 3, "recipe": 0}, "tiers": T},
+  {"pkg": "z", "fn": "vfH_C10_Tree", "params": {"pagesize": 80, "prefix": 9, "ops": 1, "menu": 3, "recipe": 0}, "tiers": T},
+  {"pkg": "z", "fn": "vfH_C10_Tree", "params": {"pagesize": 80, "prefix": 3, "ops": 2, "menu": 3, "recipe": 2}, "tiers": T},
+  {"pkg": "z", "fn": "vfH_C10_Tree", "params": {"pagesize": 80, "prefix": 4, "ops": 1, "menu": 3}, "tiers": T, "twin": True},
+ ], witnesses=["vfH_C10_Tree:end"],
+ bounds=["pages of 80 / 96 bytes (4 / 5 keys per node) so that splits, root splits, compaction and page recycling happen within a few operations; a prefix of 3..9 Sets with symbolic keys in ascending / descending / free order and symbolic values, then 1..2 fully symbolic operations from Set, DeleteBelow, IterateKV rewrite, Reset; afterwards Get(probe) = model for an arbitrary probe key, IterateKV visits exactly the live pairs once each; keys in [1, 2^64-2], values in [1, 2^64-1]"],
+ outside=["4096-byte pages; histories longer than 11 operations; trees deeper than 3 levels", "growth of the backing buffer beyond the initial 1 MiB"],
+ assumptions=A_Z)
+
+specs["C11"] = dict(prefixes=["C11.", "no-panic"], runs=[
+  {"pkg": "z", "fn": "vfH_C11_Buffer", "params": {"ops": 2, "maxlen": 40, "cap": 64}, "tiers": QT},
+  {"pkg": "z", "fn": "vfH_C11_Buffer", "params": {"ops": 3, "maxlen": 40, "cap": 64, "menu": 7}, "tiers": T},
+  {"pkg": "z", "fn": "vfH_C11_Buffer", "params": {"ops": 3, "maxlen": 24, "cap": 64}, "tiers": T},
+  {"pkg": "z", "fn": "vfH_C11_Slices", "params": {"slices": 3, "maxlen": 3}, "tiers": QT},
+  {"pkg": "z", "fn": "vfH_C11_Slices", "params": {"slices": 4, "maxlen": 2}, "tiers": T},
+  {"pkg": "z", "fn": "vfH_C11_MaxSize", "tiers": QT},
+  {"pkg": "z", "fn": "vfH_C11_Sort", "params": {"slices": 3}, "tiers": QT},
+  {"pkg": "z", "fn": "vfH_C11_Sort", "params": {"slices": 4}, "tiers": T},
+  {"pkg": "z", "fn": "vfH_C11_Buffer", "params": {"ops": 2, "maxlen": 40, "cap": 64}, "tiers": T, "twin": True},
+ ], witnesses=["vfH_C11_Buffer:end", "vfH_C11_Slices:end", "vfH_C11_MaxSize:end", "vfH_C11_Sort:end"],
+ bounds=["calloc-mode buffer of initial capacity 64: histories of 2 (quick) / 3 (thorough) operations from Write, WriteSlice, SliceAllocate, Allocate, AllocateOffset, Reset with SYMBOLIC lengths 0..40 (crossing the capacity and the doubling) and symbolic bytes: length and every byte of Bytes() equal the model at an arbitrary position",
+  "3..4 length-prefixed slices of symbolic length 0..3 (including empty ones): SliceIterate / SliceOffsets / Slice yield the non-empty ones in order", "WithMaxSize with a symbolic limit and three initial capacities: never exceeded, refusal exactly when the write would exceed it", "SortSlice on 3..4 one-byte slices: ordered permutation"],
+ outside=["mmap mode and the automatic switch to mmap (no file model was built: z/file.go, z/mmap_linux.go are not encoded)", "the sorter's multi-chunk merge (>= 1025 slices)", "sort.Slice is a contract stub (any ordering consistent with less)"],
+ assumptions=A_Z + ["sort.Slice: contract stub (a permutation such that no adjacent pair is out of order)"])
+
+specs["C12"] = dict(prefixes=["C12.", "no-panic", "terminates", "no-deadlock", "no-race"], runs=[
+  {"pkg": "z", "fn": "vfH_C12_Alloc", "params": {"chunks": 2}, "tiers": QT, "fallback": "cvc5-int,z3-new"},
+  {"pkg": "z", "fn": "vfH_C12_Alloc", "params": {"chunks": 3}, "tiers": QT, "fallback": "cvc5-int,z3-new"},
+  {"pkg": "z", "fn": "vfH_C12_Alloc", "params": {"chunks": 1}, "tiers": T, "fallback": "cvc5-int,z3-new"},
+  {"pkg": "z", "fn": "vfH_C12_Seq", "params": {"init": 512}, "tiers": QT, "fallback": "cvc5-int,z3-new"},
+  {"pkg": "z", "fn": "vfH_C12_Seq", "params": {"init": 2048}, "tiers": T, "fallback": "cvc5-int,z3-new"},
+  {"pkg": "z", "fn": "vfH_C12_Aligned", "tiers": QT, "fallback": "z3-new,cvc5-int"},
+  {"pkg": "z", "fn": "vfH_C12_TrimReset", "tiers": QT, "fallback": "cvc5-int,z3-new"},
+  {"pkg": "z", "fn": "vfH_C12_Race", "params": {"preempt": 3}, "tiers": QT, "fallback": "cvc5-int,z3-new"},
+  {"pkg": "z", "fn": "vfH_C12_Race", "params": {"preempt": 5, "threads": 3}, "tiers": T, "fallback": "cvc5-int,z3-new"},
+  {"pkg": "z", "fn": "vfH_C12_Alloc", "params": {"chunks": 2}, "tiers": T, "twin": True, "fallback": "cvc5-int,z3-new"},
+ ], witnesses=["vfH_C12_Alloc:end", "vfH_C12_Seq:end", "vfH_C12_Aligned:end", "vfH_C12_TrimReset:end", "vfH_C12_Race:end"],
+ bounds=["one Allocate(sz), sz in [1, 2^30], from an ARBITRARY allocator state (1..3 chunks of arbitrary lengths in [512, 2^30], bump pointer anywhere in any chunk): exact length, inside one chunk, above the previous bump position, bump pointer left exactly behind the result (inductive step for disjointness), terminates",
+  "three allocations of symbolic sizes 1..4096, Reset, the same sizes again, Reset, another order: pairwise disjoint, no memory acquired by the replay", "AllocateAligned on a dirty chunk at an arbitrary bump position and arbitrary base address: aligned, zeroed; Copy equal", "TrimTo(max) for every max in [0, 2^20], Reset, Allocate", "2 (quick) / 3 (thorough) goroutines allocating concurrently at the point where the current chunk overflows, atomics as scheduling points: results disjoint, exact, no race, every goroutine finishes"],
+ outside=["more than 3 goroutines; sums of in-flight request sizes >= 2^32 (carry into the chunk index)", "AllocatorPool"],
+ assumptions=A_Z)
+
+specs["C14"] = dict(prefixes=["C14.", "no-panic", "no-deadlock"], runs=[
+  {"pkg": "root", "fn": "vfH_C14_Buckets", "tiers": QT, "fallback": "cvc5-int,z3-new"},
+  {"pkg": "root", "fn": "vfH_C14_Index", "tiers": QT, "fallback": "cvc5-int,z3-new"},
+  {"pkg": "root", "fn": "vfH_C14_Sweep", "params": {"rewrite": 0, "ticks": 1, "pre": 1}, "tiers": QT, "fallback": "cvc5-int,z3-new", "short_ms": 1000},
+  {"pkg": "root", "fn": "vfH_C14_Sweep", "params": {"rewrite": 0, "ticks": 2, "pre": 0}, "tiers": QT, "fallback": "cvc5-int,z3-new", "short_ms": 1000},
+  {"pkg": "root", "fn": "vfH_C14_Sweep", "params": {"rewrite": 1, "ticks": 1, "pre": 1}, "tiers": T, "fallback": "cvc5-int,z3-new", "short_ms": 1000},
+  {"pkg": "root", "fn": "vfH_C14_Sweep", "params": {"rewrite": 1, "ticks": 1, "pre": 1, "preempt": 3}, "tiers": Q, "fallback": "cvc5-int,z3-new", "short_ms": 1000},
+  {"pkg": "root", "fn": "vfH_C14_Sweep", "params": {"rewrite": 1, "ticks": 2, "pre": 0, "ttl_ms": 6000}, "tiers": T, "fallback": "cvc5-int,z3-new", "short_ms": 1000},
+  {"pkg": "root", "fn": "vfH_C14_Sweep", "params": {"rewrite": 0, "ticks": 1, "pre": 1}, "tiers": T, "twin": True, "fallback": "cvc5-int,z3-new", "short_ms": 1000},
+ ], witnesses=["vfH_C14_Buckets:end", "vfH_C14_Index:update", "vfH_C14_Index:del", "vfH_C14_Sweep:end"],
+ bounds=["bucket arithmetic for arbitrary instants (a swept bucket only holds instants that have passed; monotonicity)", "add / update / del of the expiry index for arbitrary keys and expirations",
+  "one TTL entry (ttl 1 s or 6 s, 5-second buckets), optionally re-written with no TTL / a later TTL / deleted by the client at EVERY position relative to the sweep (before the bucket grab, between grab and per-key check, between check and removal, after), 1..2 sweeps at arbitrary instants, insert applied before or after the sweeps; afterwards: re-written entries are present and unreported; an expired entry covered by a sweep that started after it was applied (with a newly completed bucket) is gone; swept entries were expired, released and reported once"],
+ outside=O_CACHE + ["more than one TTL entry, more than 2 sweeps", "wall-clock steps"],
+ assumptions=A_CACHE + ["small-clock encoding (instants = fixed base + 8-bit seconds + nanoseconds)", "the ticker may fire at any scheduling point, at most the stated number of times"])
+
+specs["C16"] = dict(prefixes=["C16.", "no-panic"], runs=[
+  {"pkg": "z", "fn": "vfH_C16_Reopen", "params": {"prefix": 5, "ops": 1, "menu": 2, "after": 1}, "tiers": QT},
+  {"pkg": "z", "fn": "vfH_C16_Reopen", "params": {"prefix": 5, "ops": 1, "menu": 2, "after": 1, "recipe": 1}, "tiers": QT},
+  {"pkg": "z", "fn": "vfH_C16_Reopen", "params": {"prefix": 4, "ops": 2, "menu": 3, "after": 1}, "tiers": T},
+  {"pkg": "z", "fn": "vfH_C16_Reopen", "params": {"prefix": 9, "ops": 1, "menu": 2, "after": 1, "recipe": 1}, "tiers": T},
+  {"pkg": "z", "fn": "vfH_C16_Reopen", "params": {"prefix": 6, "ops": 1, "menu": 2, "after": 1, "pagesize": 96}, "tiers": T},
+  {"pkg": "z", "fn": "vfH_C16_Reopen", "params": {"prefix": 5, "ops": 1, "menu": 2, "after": 0}, "tiers": T, "twin": True},
+ ], witnesses=["vfH_C16_Reopen:end"],
+ bounds=["histories as in C10 (80/96-byte pages, 4..9 prefix Sets ascending or descending, then 1..2 symbolic Set / DeleteBelow operations so that pages are recycled), then a clean 'close and reopen': a second Tree over a byte-for-byte copy of the data region with a trailing partial page of 0, 1 or pageSize-1 bytes, reconstructed by the real reinit; Get(probe), statistics, frontier and free-list head equal the original; two further symbolic Sets on both trees keep them equal (recycled pages reused identically)"],
+ outside=["the file layer (os / mmap / msync / Truncate): the reopen is white-box, on a copy of the bytes", "torn writes (the property claims clean close only)", "4096-byte pages, files larger than the initial 1 MiB"],
+ assumptions=A_Z)
 
 def main():
     for pid, s in specs.items():
